@@ -38,7 +38,10 @@
 (*   ReadTeardown(x,l)  read-loop thread: its read failed (it is parked at *)
 (*                      the hook point peer.read.disconnect, after its own *)
 (*                      conn.Close()), now it runs handleDisconnect        *)
-(*   ApiDisconnect(x)   Manager.Disconnect: slot cleared, connection closed*)
+(*   ApiDisconnect(x)   Manager.Disconnect / DisconnectAll (sleep): the    *)
+(*                      slot is cleared and the connection closed WITHOUT  *)
+(*                      the disconnect callback; the connection is now     *)
+(*                      "awaiting teardown" (await)                        *)
 (*   Announce           b announces its routes on its registered connection*)
 (*   Learn(l)           a processes an announcement that arrived on l      *)
 (*   DropDead(l)        frames still in flight on a closed link are never  *)
@@ -54,6 +57,13 @@
 (* ANOTHER connection of the same identity is registered, clean up what    *)
 (* the agent holds for that identity (the code keys that by identity).     *)
 (*                                                                         *)
+(* What the agent holds for an identity belongs to one connection          *)
+(* generation; the clean-up of a dead generation must happen exactly once  *)
+(* and before the next generation is in use: a connection that was         *)
+(* unregistered without the callback gets its callback either from its own *)
+(* late teardown (nothing registered meanwhile) or from registerConnection *)
+(* of the next generation, before that one is inserted.                    *)
+(*                                                                         *)
 (* Deviations:                                                             *)
 (*   DevCleanupByIdentityOnStaleCallback  cleanup by identity also when a  *)
 (*        newer connection is registered (the pinned code)                 *)
@@ -66,6 +76,11 @@
 (*   DevKeepaliveDisconnectsByIdentity    the keepalive thread's failure   *)
 (*        path calls Manager.Disconnect(identity): it unregisters and      *)
 (*        closes whatever connection is registered for that identity       *)
+(*   DevSkipCleanupWhenSuperseded         registerConnection does not run  *)
+(*        the outstanding callback of a connection awaiting teardown; its  *)
+(*        late teardown is then "superseded" and skipped: what was created *)
+(*        over the old generation stays for ever (side effect of the       *)
+(*        repair of DevCleanupByIdentityOnStaleCallback)                   *)
 (*   DevRegisterCheckThenAct              (SplitRegister) the insertion    *)
 (*        trusts the earlier duplicate check: two registrations that both  *)
 (*        saw a free slot both insert; the displaced connection stays      *)
@@ -87,7 +102,7 @@ Other(x) == IF x = "a" THEN "b" ELSE "a"
 Links == 1..MaxLink
 DevNames == {"DevCleanupByIdentityOnStaleCallback", "DevTeardownDeregistersByIdentity",
              "DevRegisterReplaces", "DevRejectedStillReads", "DevKeepaliveDisconnectsByIdentity",
-             "DevRegisterCheckThenAct"}
+             "DevRegisterCheckThenAct", "DevSkipCleanupWhenSuperseded"}
 ASSUME Dev \subseteq DevNames /\ KaOf \subseteq Agent /\ SplitRegister \in BOOLEAN
 
 VARIABLES nl,       \* links dialed so far
@@ -101,11 +116,12 @@ VARIABLES nl,       \* links dialed so far
           advq,     \* [Links -> Nat]  announcements of b in flight towards a
           rt,       \* 0 or the generation through which a learned b's route
           rl,       \* 0 or the generation over which a relays a stream to b
+          await,    \* [Agent -> SUBSET Links]  unregistered by Disconnect / DisconnectAll, disconnect callback not yet run
           nann, napi, nrel, nka,
           last
 
-vars == <<nl, dialer, hs, alive, reg, st, rd, ka, advq, rt, rl, nann, napi, nrel, nka, last>>
-view == <<nl, dialer, hs, alive, reg, st, rd, ka, advq, rt, rl, nann, napi, nrel, nka>>
+vars == <<nl, dialer, hs, alive, reg, st, rd, ka, advq, rt, rl, await, nann, napi, nrel, nka, last>>
+view == <<nl, dialer, hs, alive, reg, st, rd, ka, advq, rt, rl, await, nann, napi, nrel, nka>>
 
 Init ==
   /\ nl = 0
@@ -118,6 +134,7 @@ Init ==
   /\ ka = [x \in Agent |-> [l \in Links |-> "none"]]
   /\ advq = [l \in Links |-> 0]
   /\ rt = 0 /\ rl = 0
+  /\ await = [x \in Agent |-> {}]
   /\ nann = 0 /\ napi = 0 /\ nrel = 0 /\ nka = 0
   /\ last = [act |-> "Init"]
 
@@ -138,6 +155,12 @@ Cleans(x, l) == x = "a" /\ (~Stale(x, l) \/ "DevCleanupByIdentityOnStaleCallback
 \* h = handshake status function to continue with
 Decide(y, l, keep, h) ==
   IF keep THEN
+    \* connections of this identity still awaiting their teardown: their callback runs now, before l is inserted
+    /\ IF await[y] # {} /\ "DevSkipCleanupWhenSuperseded" \notin Dev
+         THEN /\ await' = [await EXCEPT ![y] = {}]
+              /\ rt' = IF y = "a" THEN 0 ELSE rt
+              /\ rl' = IF y = "a" THEN 0 ELSE rl
+         ELSE UNCHANGED <<await, rt, rl>>
     /\ reg' = IF "DevRegisterReplaces" \in Dev THEN [reg EXCEPT ![y] = @ \cup {l}] ELSE [reg EXCEPT ![y] = {l}]
     /\ st' = [st EXCEPT ![y][l] = "up"]
     /\ rd' = [rd EXCEPT ![y][l] = "run"]
@@ -149,14 +172,14 @@ Decide(y, l, keep, h) ==
     /\ st' = [st EXCEPT ![y][l] = "rej"]
     /\ rd' = [rd EXCEPT ![y][l] = "run"]
     /\ hs' = h
-    /\ UNCHANGED <<reg, ka, advq, alive>>
+    /\ UNCHANGED <<reg, ka, advq, alive, await, rt, rl>>
   ELSE
     /\ st' = [st EXCEPT ![y][l] = "rej"]          \* conn.Close(): no threads, the link dies
     /\ alive' = [alive EXCEPT ![l] = FALSE]
     /\ rd' = RdKill(rd, l)
     /\ ka' = KaKill(ka, l)
     /\ hs' = HsKill(h, l)
-    /\ UNCHANGED <<reg, advq>>
+    /\ UNCHANGED <<reg, advq, await, rt, rl>>
 
 SlotFree(y) == reg[y] = {} \/ "DevRegisterReplaces" \in Dev
 
@@ -165,7 +188,7 @@ Register(y, l, newHs) ==
   IF SplitRegister THEN
     /\ st' = [st EXCEPT ![y][l] = IF SlotFree(y) THEN "free" ELSE "dup"]      \* RegCheck
     /\ hs' = [hs EXCEPT ![l] = newHs]
-    /\ UNCHANGED <<reg, rd, ka, advq, alive>>
+    /\ UNCHANGED <<reg, rd, ka, advq, alive, await, rt, rl>>
   ELSE
     Decide(y, l, SlotFree(y), [hs EXCEPT ![l] = newHs])
 
@@ -177,7 +200,7 @@ RegInsert(y, l) ==
                  ELSE st[y][l] = "free" /\ SlotFree(y)          \* decided again under the write lock
      IN /\ Decide(y, l, keep, hs)
         /\ last' = [act |-> "RegInsert", x |-> y, l |-> l, kept |-> keep]
-  /\ UNCHANGED <<nl, dialer, rt, rl, nann, napi, nrel, nka>>
+  /\ UNCHANGED <<nl, dialer, nann, napi, nrel, nka>>
 
 Dial(x) ==
   /\ nl < MaxLink
@@ -188,26 +211,27 @@ Dial(x) ==
      /\ hs' = [hs EXCEPT ![l] = "hello"]
      /\ alive' = [alive EXCEPT ![l] = TRUE]
      /\ last' = [act |-> "Dial", x |-> x, l |-> l]
-  /\ UNCHANGED <<reg, st, rd, ka, advq, rt, rl, nann, napi, nrel, nka>>
+  /\ UNCHANGED <<reg, st, rd, ka, advq, rt, rl, await, nann, napi, nrel, nka>>
 
 AcceptHello(l) ==
   /\ hs[l] = "hello"
   /\ LET y == Other(dialer[l]) IN
      /\ Register(y, l, "ack")
      /\ last' = [act |-> "AcceptHello", x |-> y, l |-> l, kept |-> (reg[y] = {} \/ "DevRegisterReplaces" \in Dev)]
-  /\ UNCHANGED <<nl, dialer, rt, rl, nann, napi, nrel, nka>>
+  /\ UNCHANGED <<nl, dialer, nann, napi, nrel, nka>>
 
 DeliverAck(l) ==
   /\ hs[l] = "ack"
   /\ LET x == dialer[l] IN
      /\ Register(x, l, "done")
      /\ last' = [act |-> "DeliverAck", x |-> x, l |-> l, kept |-> (reg[x] = {} \/ "DevRegisterReplaces" \in Dev)]
-  /\ UNCHANGED <<nl, dialer, rt, rl, nann, napi, nrel, nka>>
+  /\ UNCHANGED <<nl, dialer, nann, napi, nrel, nka>>
 
 TeardownVars(x, l) ==
   /\ reg' = RegAfterTeardown(x, l)
   /\ rt' = IF Cleans(x, l) THEN 0 ELSE rt
   /\ rl' = IF Cleans(x, l) THEN 0 ELSE rl
+  /\ await' = [await EXCEPT ![x] = @ \ {l}]
 
 KaBegin(x, l) ==
   /\ x \in KaOf
@@ -216,14 +240,14 @@ KaBegin(x, l) ==
   /\ ka' = [ka EXCEPT ![x][l] = "busy"]
   /\ nka' = nka + 1
   /\ last' = [act |-> "KaBegin", x |-> x, l |-> l]
-  /\ UNCHANGED <<nl, dialer, hs, alive, reg, st, rd, advq, rt, rl, nann, napi, nrel>>
+  /\ UNCHANGED <<nl, dialer, hs, alive, reg, st, rd, advq, rt, rl, await, nann, napi, nrel>>
 
 KaOk(x, l) ==
   /\ ka[x][l] = "busy"
   /\ alive[l]                                   \* a write on a closed link can only fail (KaFail)
   /\ ka' = [ka EXCEPT ![x][l] = "run"]
   /\ last' = [act |-> "KaOk", x |-> x, l |-> l]
-  /\ UNCHANGED <<nl, dialer, hs, alive, reg, st, rd, advq, rt, rl, nann, napi, nrel, nka>>
+  /\ UNCHANGED <<nl, dialer, hs, alive, reg, st, rd, advq, rt, rl, await, nann, napi, nrel, nka>>
 
 KaFail(x, l) ==
   /\ ka[x][l] = "busy"
@@ -235,7 +259,7 @@ KaFail(x, l) ==
        /\ ka' = [y \in Agent |-> [k \in Links |-> IF y = x /\ k = l THEN "done"
                                                   ELSE IF k \in reg[x] /\ ka[y][k] = "run" THEN "done" ELSE ka[y][k]]]
        /\ hs' = [k \in Links |-> IF k \in reg[x] /\ hs[k] \in {"hello", "ack"} THEN "failed" ELSE hs[k]]
-       /\ UNCHANGED <<rt, rl>>
+       /\ UNCHANGED <<rt, rl, await>>
      ELSE
        /\ alive' = [alive EXCEPT ![l] = FALSE]
        /\ rd' = RdKill(rd, l)
@@ -256,6 +280,7 @@ ApiDisconnect(x) ==
   /\ napi < MaxApi
   /\ \E l \in reg[x] :
        /\ reg' = [reg EXCEPT ![x] = @ \ {l}]
+       /\ await' = [await EXCEPT ![x] = @ \cup {l}]
        /\ alive' = [alive EXCEPT ![l] = FALSE]
        /\ rd' = RdKill(rd, l)
        /\ ka' = KaKill(ka, l)
@@ -272,7 +297,7 @@ Announce ==
        /\ advq' = [advq EXCEPT ![l] = @ + 1]
        /\ last' = [act |-> "Announce", l |-> l]
   /\ nann' = nann + 1
-  /\ UNCHANGED <<nl, dialer, hs, alive, reg, st, rd, ka, rt, rl, napi, nrel, nka>>
+  /\ UNCHANGED <<nl, dialer, hs, alive, reg, st, rd, ka, rt, rl, await, napi, nrel, nka>>
 
 Learn(l) ==
   /\ advq[l] > 0
@@ -280,14 +305,14 @@ Learn(l) ==
   /\ advq' = [advq EXCEPT ![l] = @ - 1]
   /\ rt' = l
   /\ last' = [act |-> "Learn", l |-> l, registered |-> (l \in reg["a"])]
-  /\ UNCHANGED <<nl, dialer, hs, alive, reg, st, rd, ka, rl, nann, napi, nrel, nka>>
+  /\ UNCHANGED <<nl, dialer, hs, alive, reg, st, rd, ka, rl, await, nann, napi, nrel, nka>>
 
 DropDead(l) ==
   /\ advq[l] > 0
   /\ ~alive[l]
   /\ advq' = [advq EXCEPT ![l] = 0]
   /\ last' = [act |-> "DropDead", l |-> l, n |-> advq[l]]
-  /\ UNCHANGED <<nl, dialer, hs, alive, reg, st, rd, ka, rt, rl, nann, napi, nrel, nka>>
+  /\ UNCHANGED <<nl, dialer, hs, alive, reg, st, rd, ka, rt, rl, await, nann, napi, nrel, nka>>
 
 RelayOpen ==
   /\ nrel < MaxRelay
@@ -298,7 +323,7 @@ RelayOpen ==
        /\ rl' = l
        /\ last' = [act |-> "RelayOpen", l |-> l]
   /\ nrel' = nrel + 1
-  /\ UNCHANGED <<nl, dialer, hs, alive, reg, st, rd, ka, advq, rt, nann, napi, nka>>
+  /\ UNCHANGED <<nl, dialer, hs, alive, reg, st, rd, ka, advq, rt, await, nann, napi, nka>>
 
 Next ==
   \/ \E x \in Agent : Dial(x) \/ ApiDisconnect(x)
@@ -328,16 +353,19 @@ StaleTeardownHarmless ==
         /\ reg'[last'.x] = reg[last'.x]
         /\ (last'.x = "a" /\ rt \in reg["a"]) => rt' = rt
         /\ (last'.x = "a" /\ rl \in reg["a"]) => rl' = rl]_vars
+\* what was created over a dead generation never survives the registration of the next generation
+NoDeadGenerationItems ==
+  reg["a"] # {} => (rt = 0 \/ rt \in reg["a"]) /\ (rl = 0 \/ rl \in reg["a"])
 \* what a holds for b was created over a connection a kept
 ItemsFromKept == (rt # 0 => st["a"][rt] = "up") /\ (rl # 0 => st["a"][rl] = "up")
 
-State(n, d, h, al, rg, s, r, k, aq, t, rr, na, np, nr, nk) ==
+State(n, d, h, al, rg, s, r, k, aq, t, rr, aw, na, np, nr, nk) ==
   [nl |-> n, dialer |-> d, hs |-> h, alive |-> al, reg |-> rg, st |-> s, rd |-> r, ka |-> k, advq |-> aq,
-   rt |-> t, rl |-> rr, nann |-> na, napi |-> np, nrel |-> nr, nka |-> nk]
+   rt |-> t, rl |-> rr, await |-> aw, nann |-> na, napi |-> np, nrel |-> nr, nka |-> nk]
 
 EmitEdge ==
   Emit => PrintT("EDGE " \o ToJson([
-     s |-> State(nl, dialer, hs, alive, reg, st, rd, ka, advq, rt, rl, nann, napi, nrel, nka),
+     s |-> State(nl, dialer, hs, alive, reg, st, rd, ka, advq, rt, rl, await, nann, napi, nrel, nka),
      a |-> last',
-     t |-> State(nl', dialer', hs', alive', reg', st', rd', ka', advq', rt', rl', nann', napi', nrel', nka')]))
+     t |-> State(nl', dialer', hs', alive', reg', st', rd', ka', advq', rt', rl', await', nann', napi', nrel', nka')]))
 =============================================================================
